@@ -3,12 +3,12 @@
 
 static J ids_to_json(const std::vector<IdName> &v) {
     J a = J::arr();
-    for (auto &e : v) { J o = J::obj(); o.set("id", e.id); o.set("name", e.name); a.push(o); }
+    for (auto &e : v) { J o = J::obj(); o.set("id", e.id); o.set("name", e.name); if (e.entry_bytes) o.set("entry_bytes", e.entry_bytes); a.push(o); }
     return a;
 }
 static void ids_from_json(const J &a, std::vector<IdName> &v) {
     v.clear();
-    for (auto &e : a.a) v.push_back({(uint32_t)e.geti("id"), e.gets("name")});
+    for (auto &e : a.a) v.push_back({(uint32_t)e.geti("id"), e.gets("name"), (uint32_t)e.geti("entry_bytes", 0)});
 }
 
 J World::to_json() const {
